@@ -296,9 +296,22 @@ class Queue(Greenlet):
             ret.append(thread.exception or thread.value)
         return ret
 
+    def _holds_pool_slot(self):
+        current = gevent.getcurrent()
+        for attr in ('store_pool', 'relay_pool'):
+            pool = getattr(self, attr, None)
+            if pool is not None and current in pool:
+                return True
+        return False
+
     def _pool_spawn(self, which, func, *args, **kwargs):
         pool = getattr(self, which+'_pool', gevent)
         assert pool is not None
+        if pool is not gevent and self._holds_pool_slot():
+            # A greenlet occupying a slot of a bounded pool must not wait for
+            # another slot, or the slot holders end up waiting for each other
+            # forever. Let a helper greenlet do the waiting instead.
+            return gevent.spawn(pool.spawn, func, *args, **kwargs)
         return pool.spawn(func, *args, **kwargs)
 
     def _add_queued(self, entry):
